@@ -905,9 +905,17 @@ def add_prefix_readers(pack):
     def next_setup(eng, st):
         psetup(eng, st)
 
+        # what each reader requires of the character under the cursor (its contract above, or the assert it starts with)
+        stands_on = {"_read_list": "(", "_read_vector": "[", "_read_map": "{", "_read_str": '"', "_read_quoted": "'", "_read_character": "\\",
+                     "_read_reader_macro": "#", "_read_meta": "^", "_read_comment": ";", "_read_syntax_quoted": "`", "_read_unquote": "~", "_read_deref": "@"}
+
         def by_contract(fn):
             def model(e, s, args, k):
                 # any of the form readers (by contract): returns something or raises a syntax error
+                want = stands_on.get(fn.__name__)
+                if want is not None:
+                    r = fld(s, e.lift(args[0], s), "_reader")
+                    e.oblige(s, f"{fn.__name__} is entered with the cursor on its own opening character {want!r}", CH(pos(s, r)) == V.mk_str(want), "pre", 0)
                 s.ghost["reader_called"] = list(s.ghost.get("reader_called", [])) + [fn]
                 s2 = s.copy()
                 res = V.fresh_val("form")
@@ -996,6 +1004,11 @@ for op, cl in (("(", ")"), ("[", "]"), ("#{", "}"), ("{", "}")):
         got = outcome(op + "1 2" + cl + " x")
         if not (isinstance(got, list) and len(got) == 2 and got[1] == "x"):
             bad.append("%r: %s, expected the collection and then x" % (op + "1 2" + cl + " x", got))
+for text, want in (("'x", "(quote x)"), ("@x", "(basilisp.core/deref x)"), ("`~x", "x"), ("~x", "(basilisp.core/unquote x)"), ("[1]", "[1]"), ("(1)", "(1)"), ("{1 2}", "{1 2}"),
+                   ("#{1}", "#{1}"), ('"s"', "'s'"), ("\\a", "'a'"), ("^:m [1]", "[1]"), ("; c\n7", "7"), (":k", ":k"), ("sym", "sym"), ("-3", "-3")):
+    got = outcome(text)
+    if got != [want]:
+        bad.append("%r reads as %s, expected [%s]" % (text, got, want))
 got = outcome("(1 ] 2)")
 if got != "malformed":
     bad.append("'(1 ] 2)': %s, expected malformed" % (got,))
